@@ -20,10 +20,42 @@ DETAILS = []
 _REACHED = set()
 
 
+_GLOBALS0 = None
+
+
+def _module_containers():
+    import sys
+    for name in ("Core", "Environments", "Batching", "Collectors", "Decode", "Tags"):
+        mod = sys.modules.get("ECAgent." + name)
+        for k, v in (list(vars(mod).items()) if mod is not None else []):
+            if type(v) in (set, dict, list) and not k.startswith("__"):
+                yield mod, k, v
+
+
+def _reset_module_state():
+    """Every symbolic path stands for a run in a fresh process: module-level containers of the library (memo tables, type sets -
+    the current tree has none) are put back, in place, to their content at import time.  Without this a container filled by one
+    path is seen by the next path in the same analysis process and yields counterexamples that do not reproduce."""
+    global _GLOBALS0
+    if _GLOBALS0 is None:
+        _GLOBALS0 = {(m.__name__, k): type(v)(v) for m, k, v in _module_containers()}
+        return
+    for m, k, v in _module_containers():
+        v0 = _GLOBALS0.get((m.__name__, k))
+        if v0 is None:
+            continue
+        if type(v) is list:
+            v[:] = v0
+        else:
+            v.clear()
+            v.update(v0)
+
+
 def begin():
     """Reset per-path bookkeeping. Must be the first call of every harness."""
     _REACHED.clear()
     del DETAILS[:]
+    _reset_module_state()
 
 
 def reach(label="main"):
